@@ -94,12 +94,18 @@ func genSeq(r *vlib.Rng, prop string, id int, out *vlib.Out) {
 	sub := func() {
 		beh := "block"
 		x := r.Intn(100)
-		if x < 15 {
+		if x < 12 {
 			beh = "ret"
+		} else if x < 18 {
+			beh = "err" // fails with a plain error (no panic)
 		} else if x < 25 {
 			beh = "panic"
 		}
-		out.Line("sub %s 30", beh)
+		ms := 30
+		if r.Chance(6) {
+			ms = 0 // the deadline has already passed when Submit is called
+		}
+		out.Line("sub %s %d", beh, ms)
 		if beh == "block" {
 			blocked = append(blocked, nsub)
 		}
@@ -260,6 +266,15 @@ func gen(tier, prop string, out *vlib.Out) {
 		"new seq prop=%s id=0 init=1 q=8 core=2 max=3 rate=- idle=0 ord=cmr\nsub block 30\nsub block 30\nsub block 30\nsub block 30\nsub block 30\nstart\nrel 0\nrel 1\nrel 2\nsnap\nrel 3\nrel 4\nshutdown\nwaitdone\nend",
 		"new seq prop=%s id=0 init=1 q=2 core=- max=- rate=- idle=0 ord=cmr\nshutdown\nshutdownnow\nsubnil\nsub block 30\nsub ret 30\nsub ret 30\nstart\nstart\nstates\nshutdownnow\nrel 0\nsnap\nshutdown\nstart\nsub ret 30\nend",
 		"new seq prop=%s id=0 init=2 q=0 core=- max=3 rate=0 idle=0 ord=cmr\nsub ret 30\nstart\nsub block 30\nsub block 30\nsub block 30\nrel 1\nrel 2\nrel 0\nshutdown\nwaitdone\nend",
+		// tasks that fail with a plain error are executed exactly once like any other; deadlines that have already
+		// passed (timeout 0): Submit either sends or reports the ctx error, never both; initGo = coreGo = maxGo given explicitly
+		"new seq prop=%s id=0 init=2 q=3 core=2 max=2 rate=- idle=0 ord=cmr\nsub err 30\nsub err 0\nstart\nsub err 30\nsub block 0\nsub ret 0\nsub err 30\nrel 3\nsnap\nshutdown\nwaitdone\nend",
+		"new seq prop=%s id=0 init=1 q=1 core=- max=- rate=- idle=0 ord=cmr\nsub block 30\nsub err 0\nsub ret 0\nstart\nsub err 30\nsub err 0\nrel 0\nsnap\nshutdownnow\nend",
+		"new conc prop=%s id=0 init=1 q=2 core=- max=2 rate=0 idle=300000 ord=cmr seed=11 subs=3 per=4 dl=70 blk=10 pan=10 span=200 plan=s50,r400,d700 fin=d samp=1",
+		// DEFECT CANDIDATE outside C10-C12 (not generated: it kills the process, so no op exists for it; see the genaudit
+		// report): States(ctx, 0) — the zero interval — returns (ch, nil) and then the pool's own sampler goroutine panics in
+		// time.NewTicker ("non-positive interval for NewTicker"), which nothing can recover: the whole program dies.
+		//   p, _ := pool.NewOnDemandBlockTaskPool(1, 1); _ = p.Start(); p.States(context.Background(), 0)
 		"new seq prop=%s id=0 init=0 q=1 core=- max=- rate=- idle=0 ord=cmr",
 		"new seq prop=%s id=0 init=1 q=-1 core=- max=- rate=- idle=0 ord=cmr",
 		"new seq prop=%s id=0 init=2 q=1 core=1 max=- rate=- idle=0 ord=cmr",
